@@ -27,7 +27,9 @@ RULE = ("(systematic) for each index rule (name: +1 zero form; prefix: 'same' ze
         "tiny tables, where all entry rows of a row are ingested before its terms are resolved (a refused row is fine), and "
         "histories interrupted by a rejected statement on a real stream (catch-and-continue); (entry histories) many-name statement "
         "sequences through every public serializer entry point of both integrations with name tables of 8..15, judged by the "
-        "independent decoder against the sizes the stream declares. Oracles on every transition: ids in [0,size]; live entries <= size; "
+        "independent decoder against the sizes the stream declares (15 % with the caller's ONE options object first used for a serialization "
+        "that aborted part-way); (splitter histories) two streams built from one options object fed alternately through "
+        "Stream.triple()/quad(), each file decoded on its own. Oracles on every transition: ids in [0,size]; live entries <= size; "
         "string resolved by the real reader == string meant; same through an independent table; writer map and reader "
         "table mirror each other. Non-trivial = distinct canonical states in which the table is full (BFS) plus walk "
         "steps that evicted.")
@@ -535,6 +537,10 @@ def entry_history(ctx, rng):
         n, p, d = cfg["preset"]
         need = gen.need_of(stmts, cfg["physical"], p > 0)
         cfg["preset"] = (max(rng.choice([8, 9, 11, 13, 15]), need[1]), max(min(p, rng.choice([2, 3, 5])), need[0]) if p else 0, d)
+    if stmts and cfg["entry"] != "sink_serialize" and rng.random() < .15:
+        # the application's ONE options object was first used for a serialization that aborted part-way
+        cfg["failed_attempt_first"] = rng.randint(1, len(stmts))
+        ctx.observe("entry-history:retry-after-aborted-attempt-with-same-options")
     w, res = c03.check_stream(cfg, stmts, ns)
     ctx.observe("entry-histories")
     ctx.observe(f"entry-history:{cfg['integration']}:{cfg['entry']}")
@@ -550,6 +556,72 @@ def entry_history(ctx, rng):
             ctx.observe("entry-histories-with-eviction")
     ctx.case(("entry", sorted(cfg.items()), stmts), ev > 0,
              sample={"kind": "entry-history", "entry": f"{cfg['integration']}:{cfg['entry']}", "sizes": list(cfg["preset"]), "evictions": ev})
+
+
+def splitter_history(ctx, rng):
+    """Two output streams built from ONE options object the application keeps, fed alternately through the per-statement
+    API (a splitter that routes each statement to one of two files): every id that reaches a file must resolve, on a reader
+    of THAT file, to the string its own writer meant - judged by the independent decoder on each file separately."""
+    from .. import pj as _pj
+    from .. import refdec as _refdec
+    from .. import wire as _wire
+    from .. import terms as T
+
+    integ = rng.choice(["generic", "rdflib"])
+    phys = rng.choice([1, 2])
+    arity = 3 if phys == 1 else 4
+    mode = "rdf11"
+    va = gen.Vocab(rng, mode, n_ns=rng.randint(1, 3), n_local=rng.randint(3, 6), n_dt=2)
+    vb = gen.Vocab(rng, mode, n_ns=rng.randint(1, 3), n_local=rng.randint(3, 6), n_dt=2)
+    a = gen.statements(rng, rng.randint(3, 14), arity, mode, vocab=va)
+    b = gen.statements(rng, rng.randint(3, 14), arity, mode, vocab=vb)
+    need = [max(x, y) for x, y in zip(gen.need_of(a, phys, True), gen.need_of(b, phys, True))]
+    cfg = {"integration": integ, "physical": phys, "frame_size": rng.choice([1, 2, 5, 250]),
+           "preset": (max(rng.choice([8, 9, 12, 64]), need[1]), max(rng.choice([1, 2, 4, 16]), need[0]), max(rng.choice([1, 2, 8]), need[2])),
+           "logical": _pj.FLAT_LOGICAL[phys], "delimited": True, "generalized": False, "rdf_star": False}
+    options = _pj.make_options(cfg)
+    conv = T.stmt_to_generic if integ == "generic" else T.stmt_to_rdflib
+    try:
+        streams = [_pj.make_stream(cfg, options), _pj.make_stream(cfg, options)]
+        outs: list = [[], []]
+        for st_ in streams:
+            st_.enroll()
+        queues = [list(a), list(b)]
+        while queues[0] or queues[1]:
+            k = rng.randrange(2)
+            if not queues[k]:
+                k = 1 - k
+            st = queues[k].pop(0)
+            fr = streams[k].triple(conv(st)) if phys == 1 else streams[k].quad(conv(st))
+            if fr:
+                outs[k].append(fr.SerializeToString(deterministic=True))
+        for k in range(2):
+            fr = streams[k].flow.to_stream_frame()
+            if fr:
+                outs[k].append(fr.SerializeToString(deterministic=True))
+    except Exception as e:  # noqa: BLE001 - a refusal to share is not what is judged here
+        ctx.observe(f"splitter-raised:{type(e).__name__}")
+        ctx.case(("splitter", sorted(cfg.items()), a, b), False)
+        return
+    ctx.observe("splitter-histories")
+    for k, want_st in enumerate((a, b)):
+        data = b"".join(_wire.enc_varint(len(f)) + f for f in outs[k])
+        problem = None
+        try:
+            res = _refdec.decode(_wire.dec_stream(data, True))
+            if res.violation is not None:
+                problem = f"file {k} is not a valid stream: {res.violation}"
+            elif [T.norm_stmt(x) for x in res.statements] != [T.norm_stmt(x) for x in want_st]:
+                problem = f"file {k} decodes to {len(res.statements)} statements, its writer was given {len(want_st)} (or other terms)"
+        except Exception as e:  # noqa: BLE001
+            problem = f"file {k} unreadable: {type(e).__name__}: {e}"
+        if problem:
+            ctx.violation({"clause": "entry-history:splitter", "kind": "walk", "sizes": list(cfg["preset"]), "mode": "entry-splitter",
+                           "cfg": cfg, "summary": f"{integ}: two streams built from one SerializerOptions object, fed alternately through "
+                                                  f"Stream.{'triple' if phys == 1 else 'quad'}(): {problem}"})
+            break
+    ctx.case(("splitter", sorted(cfg.items()), a, b), True,
+             sample={"kind": "splitter-history", "integration": integ, "sizes": list(cfg["preset"]), "statements": [len(a), len(b)]})
 
 
 def reader_history(ctx, rng):
@@ -662,6 +734,8 @@ def run_shard(ctx):
             interrupted_history(ctx, ctx.rng("interrupted", i, k))
         for k in range(60):
             entry_history(ctx, ctx.rng("entry", i, k))
+        for k in range(20):
+            splitter_history(ctx, ctx.rng("splitter", i, k))
         for k in range(40):
             reader_history(ctx, ctx.rng("reader", i, k))
         row_walk(ctx, ctx.rng("rows", i), row_sizes, 3_000 if ctx.tier == "quick" else 30_000,
